@@ -350,6 +350,24 @@ theorem sum_simplify_den (hF : ProbFamily env) (e : Expr) (rs : List Var)
     den env σ' (sumSimplify e rs) σ = sumVars env.card (rs.map (·.name)) (fun τ => den env σ' e τ) σ :=
   sumSimplify_den hF e rs hleaf σ
 
+/-- **`Sum.simplify` on multi-world joints** (after `fix:` d517ad1): the side conditions `SumLeafOK` (ranges are distinct
+plain variables; a summed-out child is not a `+` value and not an unstarred subscript of the leaf) are needed only when the
+children of the joint have pairwise distinct base variables — nothing is asked of their worlds.  When several children share
+a base variable the sum is returned unchanged (`sum_simplify_shared_base`), so the identity holds for every joint leaf. -/
+theorem sum_simplify_den_mw (hF : ProbFamily env) (e : Expr) (rs : List Var)
+    (hleaf : ∀ pop c, e = .prob pop c [] → (c.map (·.name)).Nodup → SumLeafOK c rs) (σ : Val) :
+    den env σ' (sumSimplify e rs) σ = sumVars env.card (rs.map (·.name)) (fun τ => den env σ' e τ) σ :=
+  sumSimplify_den_w hF e rs hleaf σ
+
+/-- a joint with several children on one base variable (P(Y @ +X, Y @ -X, Z)): `Sum.simplify` returns the sum as it is -/
+theorem sum_simplify_shared_base {pop : Option Var} {c rs : List Var} (h : ¬ (c.map (·.name)).Nodup) :
+    sumSimplify (.prob pop c []) rs = .sum (.prob pop c []) rs :=
+  sumSimplify_dup (dupBase_of_not_nodup h)
+
+/-- the witness of the repaired defect, on the model: `Sum[Y](P(Y @ +X, Y @ -X))` is no longer rewritten to `One()` -/
+example : sumSimplify (.prob none [{ name := 1, ivs := [⟨0, true⟩] }, { name := 1, ivs := [⟨0, false⟩] }] []) [Var.plain 1] =
+    .sum (.prob none [{ name := 1, ivs := [⟨0, true⟩] }, { name := 1, ivs := [⟨0, false⟩] }] []) [Var.plain 1] := by rfl
+
 /-- `Fraction(n, d).simplify()` = `n / d` wherever `d` does not vanish (cancellation of equal factors included) -/
 theorem fraction_simplify_den (n d c : Expr) (h : Expr.fracSimplify n d = .ok c) (σ : Val)
     (hd : den env σ' d σ ≠ 0) : den env σ' c σ = den env σ' n σ / den env σ' d σ :=
